@@ -346,7 +346,7 @@ func expectedResponseConst(req string) string {
 
 func ruleAnswers(r *Run) {
 	m := r.M()
-	if len(r.Undecided) > 0 {
+	if r.broken() {
 		return
 	}
 	r.resolveMutatorTable()
@@ -554,7 +554,7 @@ func (ml *MsgLit) TypeConstNameOr(alt string) string {
 // nil before using it, and leaves with the not-joined error (or the UNAUTHORIZED answer).
 func ruleJoinedGuard(r *Run) {
 	m := r.M()
-	if len(r.Undecided) > 0 {
+	if r.broken() {
 		return
 	}
 	n := 0
